@@ -371,3 +371,267 @@ Proof.
   replace (len1 + publish_props_len (p_properties p) + len vi <=? rl) with true by lia. cbn [ensure bind].
   do 2 f_equal. rewrite !len_app, len_b_str. lia.
 Qed.
+
+(* ------------------------------------------------------------------ CONNECT *)
+Lemma wthen_assoc (a b c : wr) : (a >>> b) >>> c = a >>> b >>> c.
+Proof.
+  destruct a as [x [[]|e|p]]; cbn [wseq]; try reflexivity.
+  destruct b as [y [[]|e|p]]; cbn [wseq]; try reflexivity.
+  destruct c as [z r]. now rewrite app_assoc.
+Qed.
+
+Definition connect_props (c : connect) : wr :=
+  w_prop_default w_u32 (c_session_expiry_interval_secs c =? 0) (c_session_expiry_interval_secs c)
+                 P_SESS_EXPIRY_INT >>>
+  w_prop w_bytes (c_auth_method c) P_AUTH_METHOD >>>
+  w_prop w_bytes (c_auth_data c) P_AUTH_DATA >>>
+  w_prop_default w_bool (Bool.eqb (c_request_problem_info c) true) (c_request_problem_info c) P_REQ_PROB_INFO >>>
+  w_prop_default w_bool (Bool.eqb (c_request_response_info c) false) (c_request_response_info c)
+                 P_REQ_RESP_INFO >>>
+  w_prop w_u16 (c_receive_max c) P_RECEIVE_MAX >>>
+  w_prop w_u32 (c_max_packet_size c) P_MAX_PACKET_SIZE >>>
+  w_prop_default w_u16 (c_topic_alias_max c =? 0) (c_topic_alias_max c) P_TOPIC_ALIAS_MAX >>>
+  w_uprops (c_user_properties c).
+
+Definition will_props (w : last_will) : wr :=
+  w_prop w_u32 (lw_will_delay_interval_sec w) P_WILL_DELAY_INT >>>
+  w_prop w_bool (lw_is_utf8_payload w) P_UTF8_PAYLOAD >>>
+  w_prop w_u32 (lw_message_expiry_interval w) P_MSG_EXPIRY_INT >>>
+  w_prop w_bytes (lw_content_type w) P_CONTENT_TYPE >>>
+  w_prop w_bytes (lw_response_topic w) P_RESP_TOPIC >>>
+  w_prop w_bytes (lw_correlation_data w) P_CORR_DATA >>>
+  w_uprops (lw_user_properties w).
+
+Definition will_encode (w : last_will) : wr :=
+  w_vi (will_properties_len w mod TWO32) >>> will_props w >>> w_bytes (lw_topic w) >>> w_bytes (lw_message w).
+
+Lemma connect_encode_eq c sz :
+  connect_encode c sz =
+  w_bytes MQTT >>> wput [5; connect_flags c] >>> w_u16 (c_keep_alive c) >>>
+  w_vi (connect_properties_len c mod TWO32) >>> connect_props c >>> w_bytes (c_client_id c) >>>
+  match c_last_will c with Some w => will_encode w | None => wnop end >>>
+  match c_username c with Some s => w_bytes s | None => wnop end >>>
+  match c_password c with Some p => w_bytes p | None => wnop end.
+Proof.
+  unfold connect_encode, connect_props, will_encode, will_props.
+  destruct (c_last_will c); rewrite !wthen_assoc; reflexivity.
+Qed.
+
+Definition connect_items (c : connect) : pbag :=
+  oitemN P_SESS_EXPIRY_INT (if c_session_expiry_interval_secs c =? 0 then None
+                            else Some (c_session_expiry_interval_secs c)) ++
+  oitemB P_AUTH_METHOD (c_auth_method c) ++
+  oitemB P_AUTH_DATA (c_auth_data c) ++
+  oitemN P_REQ_PROB_INFO (if Bool.eqb (c_request_problem_info c) true then None
+                          else Some (b2n (c_request_problem_info c))) ++
+  oitemN P_REQ_RESP_INFO (if Bool.eqb (c_request_response_info c) false then None
+                          else Some (b2n (c_request_response_info c))) ++
+  oitemN P_RECEIVE_MAX (c_receive_max c) ++
+  oitemN P_MAX_PACKET_SIZE (c_max_packet_size c) ++
+  oitemN P_TOPIC_ALIAS_MAX (if c_topic_alias_max c =? 0 then None else Some (c_topic_alias_max c)) ++
+  uitems (c_user_properties c) ++ [].
+
+Definition will_items (w : last_will) : pbag :=
+  oitemN P_WILL_DELAY_INT (lw_will_delay_interval_sec w) ++
+  oitemN P_UTF8_PAYLOAD (option_map b2n (lw_is_utf8_payload w)) ++
+  oitemN P_MSG_EXPIRY_INT (lw_message_expiry_interval w) ++
+  oitemB P_CONTENT_TYPE (lw_content_type w) ++
+  oitemB P_RESP_TOPIC (lw_response_topic w) ++
+  oitemB P_CORR_DATA (lw_correlation_data w) ++
+  uitems (lw_user_properties w) ++ [].
+
+Lemma connect_props_wits c : wits tbl_connect (connect_props c) (connect_items c).
+Proof. unfold connect_props, connect_items. eapply wits_eq; [wits_struct|]. now rewrite app_nil_r. Qed.
+Lemma connect_props_wlen c : wlen (connect_props c) (connect_properties_len c).
+Proof. unfold connect_props. eapply wlen_eq; [wlen_struct|]. unfold connect_properties_len. lia. Qed.
+Lemma will_props_wits w : wits tbl_will (will_props w) (will_items w).
+Proof. unfold will_props, will_items. eapply wits_eq; [wits_struct|]. now rewrite app_nil_r. Qed.
+Lemma will_props_wlen w : wlen (will_props w) (will_properties_len w).
+Proof. unfold will_props. eapply wlen_eq; [wlen_struct|]. unfold will_properties_len. lia. Qed.
+
+Definition will_ok (w : last_will) : bool :=
+  qos_ok (lw_qos w) && str_ok (lw_topic w) && bin_ok (lw_message w) &&
+  opt_ok u32_ok (lw_will_delay_interval_sec w) && opt_ok bin_ok (lw_correlation_data w) &&
+  opt_ok nz32_ok (lw_message_expiry_interval w) && opt_ok str_ok (lw_content_type w) &&
+  uprops_ok (lw_user_properties w) && opt_ok str_ok (lw_response_topic w).
+
+Definition connect_ok (c : connect) : bool :=
+  u16_ok (c_keep_alive c) && u32_ok (c_session_expiry_interval_secs c) &&
+  opt_ok str_ok (c_auth_method c) && opt_ok bin_ok (c_auth_data c) &&
+  opt_ok id_ok (c_receive_max c) && u16_ok (c_topic_alias_max c) &&
+  uprops_ok (c_user_properties c) && opt_ok nz32_ok (c_max_packet_size c) &&
+  opt_ok will_ok (c_last_will c) && str_ok (c_client_id c) &&
+  opt_ok str_ok (c_username c) && opt_ok bin_ok (c_password c).
+
+Lemma connect_items_wf c : connect_ok c = true -> items_wf tbl_connect [] (connect_items c) = true.
+Proof.
+  unfold connect_ok. intros H.
+  repeat match type of H with (_ && _ = true) =>
+    let H' := fresh "Hk" in apply andb_true_iff in H as [H H'] end.
+  unfold connect_items, u16_ok, u32_ok in *.
+  repeat lazymatch goal with
+    | |- items_wf _ _ (oitemN _ _ ++ _) = true => eapply wf_oitemN; [reflexivity|reflexivity| |]
+    | |- items_wf _ _ (oitemB _ _ ++ _ ++ _) = true => eapply wf_oitemB; [reflexivity|reflexivity| |]
+    | |- items_wf _ _ (uitems _ ++ []) = true => apply wf_uitems; [reflexivity|assumption|reflexivity]
+    end.
+  all: try (intros n E;
+            match goal with
+            | Hx : opt_ok _ ?o = true |- _ =>
+              match type of E with o = Some _ => rewrite E in Hx; exact Hx end
+            end).
+  all: cbn [pval_ok]; intros n E.
+  all: match type of E with (if ?c then _ else _) = _ => destruct c eqn:E' end; try discriminate;
+       injection E as <-; try assumption.
+  all: match goal with |- (b2n ?b <=? 1) = true => destruct b; reflexivity end.
+Qed.
+
+Lemma will_items_wf w : will_ok w = true -> items_wf tbl_will [] (will_items w) = true.
+Proof.
+  unfold will_ok. intros H.
+  repeat match type of H with (_ && _ = true) =>
+    let H' := fresh "Hk" in apply andb_true_iff in H as [H H'] end.
+  unfold will_items, u32_ok in *.
+  repeat lazymatch goal with
+    | |- items_wf _ _ (oitemN _ _ ++ _) = true => eapply wf_oitemN; [reflexivity|reflexivity| |]
+    | |- items_wf _ _ (oitemB _ _ ++ _ ++ _) = true => eapply wf_oitemB; [reflexivity|reflexivity| |]
+    | |- items_wf _ _ (uitems _ ++ []) = true => apply wf_uitems; [reflexivity|assumption|reflexivity]
+    end.
+  all: try (intros n E;
+            match goal with
+            | Hx : opt_ok _ ?o = true |- _ =>
+              match type of E with o = Some _ => rewrite E in Hx; exact Hx end
+            end).
+  intros n E. destruct (lw_is_utf8_payload w) as [[]|]; try discriminate; injection E as <-; reflexivity.
+Qed.
+
+Lemma will_roundtrip w bs flags r :
+  will_properties_len w <= VI_MAX -> will_ok w = true ->
+  will_encode w = (bs, Ok tt) ->
+  (flags / 8) mod 4 = lw_qos w -> bit flags 32 = lw_retain w ->
+  decode_last_will (bs ++ r) flags = Ok (w, r).
+Proof.
+  intros Hs Hok H Hq Hr. unfold will_encode in H. rewrite mod32_small in H by assumption.
+  apply wseq_inv in H as (vi & y & Ev & E2 & ->). apply w_vi_inv in Ev.
+  apply wseq_inv in E2 as (blk & y' & Eb & E2 & ->).
+  apply wseq_inv in E2 as (t & m & Et & Em & ->).
+  apply w_bytes_inv in Et as [Htl ->]. apply w_bytes_inv in Em as [Hml ->].
+  pose proof (will_props_wlen w _ Eb) as Hlen. apply will_props_wits in Eb. subst blk.
+  pose proof Hok as Hok'. unfold will_ok in Hok.
+  repeat match type of Hok with (_ && _ = true) =>
+    let H' := fresh "Hk" in apply andb_true_iff in Hok as [Hok H'] end.
+  unfold str_ok in Hk6. apply andb_true_iff in Hk6 as [Ht1 Ht2].
+  unfold decode_last_will. rewrite <- !app_assoc.
+  rewrite (take_properties_enc _ _ _ _ Ev Hlen). cbn [bind].
+  rewrite props_of_enc by now apply will_items_wf. cbn [bind].
+  change (len (lw_topic w) / 256 :: len (lw_topic w) mod 256 :: lw_topic w) with (b_str (lw_topic w)).
+  change (len (lw_message w) / 256 :: len (lw_message w) mod 256 :: lw_message w) with (b_str (lw_message w)).
+  rewrite <- ?app_assoc. rewrite dec_string_b by assumption. cbn [bind].
+  rewrite dec_bytes_b by (unfold bin_ok in *; lia). cbn [bind].
+  rewrite Hq, Hok. cbn [ensure bind]. rewrite Hr. unfold will_items.
+  autorewrite with bag. rewrite ?opt_eta, !app_nil_r.
+  assert (E : option_map (fun n => n =? 1) (option_map b2n (lw_is_utf8_payload w)) = lw_is_utf8_payload w).
+  { destruct (lw_is_utf8_payload w) as [[]|]; reflexivity. }
+  rewrite E. destruct w; reflexivity.
+Qed.
+
+Lemma connect_flags_bits c :
+  opt_ok (fun w => lw_qos w <=? 2) (c_last_will c) = true ->
+  let f := connect_flags c in
+  f < 256 /\ f mod 2 = 0 /\ bit f 2 = c_clean_start c /\ bit f 4 = is_some (c_last_will c) /\
+  bit f 128 = is_some (c_username c) /\ bit f 64 = is_some (c_password c) /\
+  (forall w, c_last_will c = Some w -> (f / 8) mod 4 = lw_qos w /\ bit f 32 = lw_retain w).
+Proof.
+  unfold connect_flags, bit.
+  destruct (c_username c), (c_password c), (c_clean_start c), (c_last_will c) as [w|]; cbn [is_some opt_ok];
+    intros Hq; try (destruct (lw_retain w) eqn:Er);
+    repeat split; try lia; try discriminate;
+    try (match goal with H : Some _ = Some _ |- _ => injection H as <- end; rewrite ?Er; lia).
+Qed.
+
+Lemma connect_roundtrip c lim sz bs :
+  connect_encoded_size c lim <= VI_MAX -> connect_ok c = true ->
+  connect_encode c sz = (bs, Ok tt) -> connect_decode bs = Ok c.
+Proof.
+  intros Hs Hok H. rewrite connect_encode_eq in H.
+  assert (Hcpl : connect_properties_len c <= VI_MAX).
+  { unfold connect_encoded_size in Hs. lia. }
+  assert (Hwpl : forall w, c_last_will c = Some w -> will_properties_len w <= VI_MAX).
+  { intros w E. unfold connect_encoded_size in Hs. rewrite E in Hs. lia. }
+  rewrite mod32_small in H by assumption.
+  apply wseq_inv in H as (x1 & y & E1 & H & ->). apply w_bytes_inv in E1 as [_ ->].
+  apply wseq_inv in H as (x2 & y' & E2 & H & ->). apply wput_inv in E2. subst x2.
+  apply wseq_inv in H as (x3 & y'' & E3 & H & ->). apply wput_inv in E3. subst x3.
+  apply wseq_inv in H as (vi & y3 & Ev & H & ->). apply w_vi_inv in Ev.
+  apply wseq_inv in H as (blk & y4 & Eb & H & ->).
+  apply wseq_inv in H as (cid & y5 & Ec & H & ->). apply w_bytes_inv in Ec as [Hcl ->].
+  apply wseq_inv in H as (wb & y6 & Ew & H & ->).
+  apply wseq_inv in H as (ub & pb & Eu & Ep & ->).
+  pose proof (connect_props_wlen c _ Eb) as Hlen. apply connect_props_wits in Eb. subst blk.
+  pose proof Hok as Hok'. unfold connect_ok in Hok.
+  repeat match type of Hok with (_ && _ = true) =>
+    let H' := fresh "Hk" in apply andb_true_iff in Hok as [Hok H'] end.
+  assert (Hwq : opt_ok (fun w => lw_qos w <=? 2) (c_last_will c) = true).
+  { destruct (c_last_will c) as [w|]; [|reflexivity]. cbn [opt_ok] in *. unfold will_ok in Hk2.
+    repeat (apply andb_true_iff in Hk2 as [Hk2 _]). apply mem3 in Hk2. lia. }
+  destruct (connect_flags_bits c Hwq) as (Hf256 & Hf0 & Hf2 & Hf4 & Hf128 & Hf64 & Hfw).
+  set (flags := connect_flags c) in *.
+  unfold u16_ok, u32_ok in *.
+  unfold connect_decode.
+  assert (Hl10 : 10 <=? len ((len MQTT / 256 :: len MQTT mod 256 :: MQTT) ++ [5; flags] ++
+      [c_keep_alive c / 256; c_keep_alive c mod 256] ++ vi ++ enc_items tbl_connect (connect_items c) ++
+      (len (c_client_id c) / 256 :: len (c_client_id c) mod 256 :: c_client_id c) ++ wb ++ ub ++ pb) = true).
+  { rewrite !len_app, !len_cons. pose proof (eq_refl : len MQTT = 4). lia. }
+  rewrite Hl10. cbn [ensure bind].
+  unfold MQTT. cbn [app].
+  match goal with |- context [ensure ?c DE_InvalidProtocol] => replace c with true by reflexivity end.
+  cbn [ensure bind]. change (5 =? 5) with true. cbn [ensure bind].
+  replace (flags mod 2 =? 0) with true by lia. cbn [ensure bind].
+  rewrite (take_properties_enc _ _ _ _ Ev Hlen). cbn [bind].
+  rewrite props_of_enc by now apply connect_items_wf. cbn [bind].
+  change (len (c_client_id c) / 256 :: len (c_client_id c) mod 256 :: c_client_id c ++ wb ++ ub ++ pb)
+    with (b_str (c_client_id c) ++ wb ++ ub ++ pb).
+  unfold str_ok in Hk1. apply andb_true_iff in Hk1 as [Hc1 Hc2].
+  rewrite dec_string_b by assumption. cbn [bind].
+  rewrite Hf2, Hf4, Hf128, Hf64.
+  replace (c_keep_alive c / 256 * 256 + c_keep_alive c mod 256) with (c_keep_alive c) by lia.
+  assert (Eprops :
+    mkConnect (c_clean_start c) (c_keep_alive c)
+      (dflt (bag_n P_SESS_EXPIRY_INT (connect_items c)) 0)
+      (bag_b P_AUTH_METHOD (connect_items c)) (bag_b P_AUTH_DATA (connect_items c))
+      (dflt (bag_bool P_REQ_PROB_INFO (connect_items c)) true)
+      (dflt (bag_bool P_REQ_RESP_INFO (connect_items c)) false)
+      (bag_n P_RECEIVE_MAX (connect_items c))
+      (dflt (bag_n P_TOPIC_ALIAS_MAX (connect_items c)) 0)
+      (bag_pairs P_USER (connect_items c))
+      (bag_n P_MAX_PACKET_SIZE (connect_items c))
+      (c_last_will c) (c_client_id c) (c_username c) (c_password c) = c).
+  { unfold connect_items. autorewrite with bag. rewrite ?opt_eta, !app_nil_r.
+    rewrite dflt_bool_true, dflt_bool_false.
+    replace (dflt (if c_session_expiry_interval_secs c =? 0 then None else Some (c_session_expiry_interval_secs c)) 0)
+      with (c_session_expiry_interval_secs c)
+      by (destruct (c_session_expiry_interval_secs c =? 0) eqn:E; cbn [dflt]; lia).
+    replace (dflt (if c_topic_alias_max c =? 0 then None else Some (c_topic_alias_max c)) 0)
+      with (c_topic_alias_max c)
+      by (destruct (c_topic_alias_max c =? 0) eqn:E; cbn [dflt]; lia).
+    destruct c; reflexivity. }
+  (* will *)
+  match goal with |- bind ?X _ = _ => assert (Ewill : X = Ok (c_last_will c, ub ++ pb)) end.
+  { destruct (c_last_will c) as [w|] eqn:Ewl; cbn [is_some].
+    - destruct (Hfw w eq_refl) as [Hq Hr]. cbn [opt_ok] in Hk2.
+      rewrite (will_roundtrip w wb flags (ub ++ pb)); auto.
+    - apply wnop_inv in Ew. subst wb. reflexivity. }
+  rewrite Ewill. cbn [bind].
+  match goal with |- bind ?X _ = _ => assert (Euser : X = Ok (c_username c, pb)) end.
+  { destruct (c_username c) as [u|]; cbn [is_some opt_ok] in *.
+    - apply w_bytes_inv in Eu as [Hul ->]. unfold str_ok in Hk0. apply andb_true_iff in Hk0 as [Hu1 Hu2].
+      change (len u / 256 :: len u mod 256 :: u) with (b_str u). rewrite dec_string_b by assumption. reflexivity.
+    - apply wnop_inv in Eu. subst ub. reflexivity. }
+  rewrite Euser. cbn [bind].
+  match goal with |- bind ?X _ = _ => assert (Epass : exists r5, X = Ok (c_password c, r5)) end.
+  { destruct (c_password c) as [p|]; cbn [is_some opt_ok] in *.
+    - apply w_bytes_inv in Ep as [Hpl ->]. exists [].
+      change (len p / 256 :: len p mod 256 :: p) with (b_str p).
+      rewrite <- (app_nil_r (b_str p)). rewrite dec_bytes_b by (unfold bin_ok in *; lia). reflexivity.
+    - exists pb. reflexivity. }
+  destruct Epass as [r5 Epass]. rewrite Epass. cbn [bind]. f_equal. exact Eprops.
+Qed.
